@@ -152,8 +152,9 @@ func genTable(r *Rand, maxRows int) table {
 func (t table) numConst(r *Rand) float64 {
 	if len(t.rows) > 0 && r.Chance(70) {
 		row := Pick(r, t.rows).(map[string]any)
-		v := row[Pick(r, t.numCols)].(float64)
-		return v + float64(r.Intn(3)-1)
+		if v, ok := row[Pick(r, t.numCols)].(float64); ok {
+			return v + float64(r.Intn(3)-1)
+		}
 	}
 	return Pick(r, numPool)
 }
@@ -161,7 +162,9 @@ func (t table) numConst(r *Rand) float64 {
 func (t table) strConst(r *Rand) string {
 	if len(t.rows) > 0 && r.Chance(70) {
 		row := Pick(r, t.rows).(map[string]any)
-		return row[Pick(r, t.strCols)].(string)
+		if v, ok := row[Pick(r, t.strCols)].(string); ok {
+			return v
+		}
 	}
 	return Pick(r, strPool)
 }
